@@ -56,11 +56,18 @@ def specs(tier):
             ann = {"List": "List[{0}]", "Set": "Set[{0}]", "FrozenSet": "FrozenSet[{0}]", "TupleVar": "Tuple[{0}, ...]",
                    "Deque": "typing.Deque[{0}]"}[c].format(LEAVES[l][0])
             out.append(("seq", ann, (c, l)))
+            if c in ("List", "Set", "TupleVar") and l in ("int", "posint"):
+                # the same container reached through a union: the union's probing stages must not apply the policy
+                out.append(("seq", f"Optional[{ann}]", (c, l)))
+                out.append(("seq", f"Union[None, {ann}]", (c, l)))
+                out.append(("seq", f"any_of({ann}, None)", (c, l)))
     for k in KEYS:
         for v in ("int", "posint", "intof", "dec"):
             if k == "intofkey" and v in ("posint", "dec"):
                 continue
             out.append(("map", f"Dict[{KEYS[k][0]}, {LEAVES[v][0]}]", (k, v)))
+            if v == "int":
+                out.append(("map", f"Optional[Dict[{KEYS[k][0]}, {LEAVES[v][0]}]]", (k, v)))
     for l in ("int", "posint"):
         out.append(("nested-seq", f"List[List[{LEAVES[l][0]}]]", (l,)))
         out.append(("nested-map", f"Dict[str, List[{LEAVES[l][0]}]]", (l,)))
